@@ -70,14 +70,28 @@ def run(F, ctx):
     ld = F.fn(SE + "::load_knowledge_graph_from_persist")
     cons = [c for c in ld.normal_calls() if (c.resolved or "").endswith("consolidate_to_current")]
     tt = [c for c in ld.normal_calls() if (c.resolved or "").endswith("::to_tuples")]
+    from . import c11
+    replay = c11.set_replay_calls(F, ld)
     ok = bool(cons) and bool(tt) and dur.ordered_dom(ld, cons, tt)
-    if ok:
+    if replay and not cons:
+        # set-replay recovery: contents are collected from a HashSet (no tuple twice by construction)
+        d = set()
+        for c in ld.normal_calls():
+            if (c.static or "").endswith("PersistBackend::read"):
+                d |= ld.derive({c.dst["l"]}, through_calls=True)
+        ok = all(any(op_local(a) in d for a in c.args) for c in replay)
+        adds = [c for c in ld.normal_calls() if (c.resolved or "").endswith("IQLEngine::add_tuples")]
+        dr = set()
+        for c in replay:
+            dr |= ld.derive({c.dst["l"]}, through_calls=False)
+        ok = ok and bool(adds) and all(op_local(c.args[2]) in dr for c in adds)
+    elif ok:
         d = set()
         for c in ld.normal_calls():
             if (c.static or "").endswith("PersistBackend::read"):
                 d |= ld.derive({c.dst["l"]}, through_calls=True)
         ok = all(op_local(c.args[0]) in d for c in cons) and all(op_local(c.args[0]) in d for c in tt)
-    ctx.site("recovery: relations filled from to_tuples(consolidate_to_current(read(..)))", ld.where(), ok=ok)
+    ctx.site("recovery: relations filled from a duplicate-free reconstruction of read(..) (consolidated diffs or set replay)", ld.where(), ok=ok)
     if not ok:
         ctx.violation(SE + "::load_knowledge_graph_from_persist:R-C32-a:unconsolidated-recovery", "recovery no longer consolidates the shard's updates before turning them into tuples: a re-inserted tuple would be loaded twice", ld.where())
     ctx.end_rule()
